@@ -6,7 +6,7 @@ event the loop dispatches).  Handlers are generated from scripts:
   plain handler script : list of steps, executed in order
       ('fire', typ, opts)      fire a new event of type typ (opts: dict of flags / 'cancel': True / 'prio')
       ('stop',)                event.stop()
-      ('raise',)               raise Boom(hid)
+      ('raise',)               raise Boom(hid)           ('raiseb',) raise BoomBase(hid), a BaseException that is no Exception
       ('ret', v)               return v (ends the script)
       ('mstop', code)          self.stop(code)          ('sysexit', code) raise SystemExit(code)   ('kbd',)
   generator handler script ('gen', steps): additionally
@@ -29,6 +29,10 @@ from circuits.core.handlers import handler
 
 class Boom(Exception):
     pass
+
+
+class BoomBase(BaseException):
+    """an exception outside the Exception hierarchy (like asyncio.CancelledError or a custom abort class)"""
 
 
 class NamedObserver(BaseComponent):
@@ -202,10 +206,10 @@ class World:
                             n += 1
                             yield None
                             w.log.append(('step', hid, eid, n))
-                    elif op == 'raise':
+                    elif op in ('raise', 'raiseb'):
                         w.log.append(('val', hid, eid, 'ERR'))
                         w.log.append(('exit', hid, eid, 'raise'))
-                        raise Boom(hid)
+                        raise (Boom if op == 'raise' else BoomBase)(hid)
                     elif op == 'fire':
                         w.fire(st[1], st[2] if len(st) > 2 else None, by=eid, by_hid=hid, firer=self)
                     elif op == 'call':
@@ -276,10 +280,10 @@ class World:
                         elif op == 'stop':
                             event.stop()
                             w.log.append(('evstop', hid, eid))
-                        elif op == 'raise':
+                        elif op in ('raise', 'raiseb'):
                             w.log.append(('val', hid, eid, 'ERR'))
                             w.log.append(('exit', hid, eid, 'raise'))
-                            raise Boom(hid)
+                            raise (Boom if op == 'raise' else BoomBase)(hid)
                         elif op == 'retfire':
                             # the handler's result is the (future) Value of an event it fires
                             ev = w.fire(st[1], st[2] if len(st) > 2 else None, by=eid, by_hid=hid, firer=self)
